@@ -229,15 +229,15 @@ func run(r *core.Run) {
 		judge(r, o)
 	}
 	n = r.N(120, 3000)
+	var freeScs []scenario
+	var freeKeys []string
 	for i := 0; i < n; i++ {
 		sc := genScenario(rd)
 		sc.dir = rd.Chance(30)
-		o := runScenario(sc, nil, false)
-		r.Begin(sc.key()+fmt.Sprintf("free%d", i), len(o.trace) > 0, "mode:free")
-		tagCreation(r, sc)
-		r.Diff(o.line, o.impl)
-		judge(r, o)
+		freeScs = append(freeScs, sc)
+		freeKeys = append(freeKeys, sc.key()+fmt.Sprintf("free%d", i))
 	}
+	runFreeIsolated(r, freeScs, freeKeys) // in child processes: a runtime crash there is an oracle failure
 	// 4. separate processes sharing one directory back end (flock between processes)
 	n = r.N(4, 150)
 	for i := 0; i < n; i++ {
